@@ -197,8 +197,23 @@ func runQuery(dir, name, query string, timeout time.Duration, wantModel bool, on
 		}
 		n++
 		wg.Add(1)
-		go func(sp solverSpec) {
+		// staged portfolio: the first solver starts at once, the others only if it has not answered
+		// after a short delay (most obligations close in well under a second; this keeps the
+		// number of concurrent solver processes close to the number of obligations in flight)
+		delay := time.Duration(0)
+		if n > 1 {
+			delay = 1500 * time.Millisecond
+		}
+		go func(sp solverSpec, delay time.Duration) {
 			defer wg.Done()
+			if delay > 0 {
+				select {
+				case <-time.After(delay):
+				case <-ctx.Done():
+					resCh <- SolverResult{Status: "unknown", Solver: sp.name, Output: "not started"}
+					return
+				}
+			}
 			file := filepath.Join(dir, sanitizeFile(name)+"."+sp.name+".smt2")
 			var b strings.Builder
 			b.WriteString("(set-option :produce-models true)\n")
@@ -243,7 +258,7 @@ func runQuery(dir, name, query string, timeout time.Duration, wantModel bool, on
 				st = "error"
 			}
 			resCh <- SolverResult{Status: st, Solver: sp.name, Time: el, Output: o}
-		}(sp)
+		}(sp, delay)
 	}
 	go func() { wg.Wait(); close(resCh) }()
 	var last SolverResult
